@@ -1,5 +1,442 @@
-//! (stub)
+//! C17 — reused comparison targets carry nothing over from earlier hashes.
+//!
+//! Explicit-state search: state = the real `FuzzyHashCompareTarget` (or
+//! position array), actions = `init_from(h)` for every h of a corpus (given as
+//! short, long and dual operands) / `clear`.  If the property holds the space
+//! closes at |H|+1 states, which covers initialisation sequences of any length.
+
 use crate::common::*;
-use serde_json::Value;
-pub fn replay(_c: &Value) -> Result<(), String> { Err("not implemented".into()) }
-pub fn run(_ctx: &Ctx) -> Report { Report::new("model_checking") }
+use crate::corpus::ramp;
+use crate::explore;
+use refmodel::text as rt;
+use serde_json::{json, Value};
+use ssdeep::internal_comparison::{BlockHashPositionArray, BlockHashPositionArrayData, BlockHashPositionArrayImpl};
+use ssdeep::{DualFuzzyHash, FuzzyHash, FuzzyHashCompareTarget, LongDualFuzzyHash, LongFuzzyHash};
+use stateright::{Model, Property};
+use std::hash::{Hash, Hasher};
+use std::sync::atomic::{AtomicU64, Ordering as AO};
+use std::sync::Arc;
+
+static TRANSITIONS: AtomicU64 = AtomicU64::new(0);
+type Content = (u8, Vec<u8>, Vec<u8>);
+
+fn corpus(thorough: bool) -> Vec<Content> {
+    let lens: Vec<(usize, usize)> = vec![(0, 0), (1, 0), (0, 1), (7, 7), (8, 3), (0, 8), (8, 0), (20, 32), (64, 64), (63, 1), (33, 33), (5, 64), (64, 5), (64, 0), (0, 64)];
+    let mut v: Vec<Content> = vec![];
+    for (i, (l1, l2)) in lens.iter().enumerate() {
+        for &log in &[0u8, 3, 30] {
+            if thorough || true {
+                v.push((log, ramp(*l1, i * 3), ramp(*l2, i * 5 + 1)));
+            }
+        }
+    }
+    v.push((2, vec![0, 0, 0, 1, 1, 1, 0, 0, 0], vec![63, 63, 63, 0, 63, 63, 63]));
+    v.push((2, vec![0], vec![]));
+    v.push((2, vec![], vec![0]));
+    v.push((2, vec![63; 3], vec![63; 3]));
+    v.push((2, ramp(8, 0), ramp(8, 0)));
+    v.push((2, ramp(8, 1), ramp(8, 0)));
+    v.push((2, ramp(8, 0), ramp(8, 1)));
+    v.sort();
+    v.dedup();
+    v
+}
+
+#[derive(Clone, Debug)]
+pub struct TS {
+    t: FuzzyHashCompareTarget,
+    last: Option<usize>,
+    key: Arc<String>,
+}
+impl TS {
+    fn new(t: FuzzyHashCompareTarget, last: Option<usize>) -> Self {
+        let key = Arc::new(format!("{:?}|{:?}", t, last));
+        TS { t, last, key }
+    }
+}
+impl PartialEq for TS {
+    fn eq(&self, o: &Self) -> bool {
+        self.key == o.key
+    }
+}
+impl Eq for TS {}
+impl Hash for TS {
+    fn hash<H: Hasher>(&self, h: &mut H) {
+        self.key.hash(h)
+    }
+}
+
+pub struct TargetModel {
+    hs: Arc<Vec<Content>>,
+    long: Arc<Vec<LongFuzzyHash>>,
+}
+impl TargetModel {
+    fn new(hs: Vec<Content>) -> Self {
+        let long = hs.iter().map(|c| LongFuzzyHash::new_from_internals_near_raw(c.0, &c.1, &c.2)).collect();
+        TargetModel { hs: Arc::new(hs), long: Arc::new(long) }
+    }
+}
+
+/// operand form: 0 long, 1 short (if it fits), 2 long dual, 3 short dual, 4 `From<&long>` (fresh object)
+fn init(t: &mut FuzzyHashCompareTarget, c: &Content, form: usize) -> Result<bool, String> {
+    let fits = c.2.len() <= 32;
+    match form {
+        0 => guarded(|| t.init_from(&LongFuzzyHash::new_from_internals_near_raw(c.0, &c.1, &c.2)))?,
+        1 if fits => guarded(|| t.init_from(&FuzzyHash::new_from_internals_near_raw(c.0, &c.1, &c.2)))?,
+        2 => guarded(|| t.init_from(&LongDualFuzzyHash::new_from_internals_near_raw(c.0, &c.1, &c.2)))?,
+        3 if fits => guarded(|| t.init_from(DualFuzzyHash::new_from_internals_near_raw(c.0, &c.1, &c.2)))?,
+        4 => guarded(|| *t = FuzzyHashCompareTarget::from(&LongFuzzyHash::new_from_internals_near_raw(c.0, &c.1, &c.2)))?,
+        _ => return Ok(false),
+    }
+    Ok(true)
+}
+
+fn judge_target(m: &TargetModel, s: &TS) -> Result<(), String> {
+    let i = match s.last {
+        None => return Ok(()),
+        Some(i) => i,
+    };
+    let h = &m.long[i];
+    let fresh = FuzzyHashCompareTarget::from(h);
+    if !guarded(|| s.t.is_valid())? {
+        return Err(format!("target is invalid after init_from({})", h));
+    }
+    if !guarded(|| s.t.full_eq(&fresh))? {
+        return Err(format!("target is not full_eq a fresh target built from {}", h));
+    }
+    if s.t.log_block_size() != h.log_block_size() || s.t.block_size() != h.block_size() {
+        return Err("block size accessor".into());
+    }
+    for (j, o) in m.long.iter().enumerate() {
+        let same = m.hs[j] == m.hs[i];
+        if guarded(|| s.t.is_equiv(o))? != same {
+            return Err(format!("is_equiv({}) = {} on a target built from {}", o, !same, h));
+        }
+        if guarded(|| s.t.compare(o))? != guarded(|| fresh.compare(o))? {
+            return Err(format!("compare({}) differs from the fresh target's", o));
+        }
+        if guarded(|| s.t.is_comparison_candidate(o))? != guarded(|| fresh.is_comparison_candidate(o))? {
+            return Err(format!("is_comparison_candidate({}) differs from the fresh target's", o));
+        }
+    }
+    // the block hash accessors represent exactly the strings
+    let c = &m.hs[i];
+    if !guarded(|| s.t.block_hash_1().is_equiv(&c.1))? || !guarded(|| s.t.block_hash_2().is_equiv(&c.2))? {
+        return Err("block_hash_1()/block_hash_2() accessors do not represent the hash's strings".into());
+    }
+    if s.t.block_hash_1().len() as usize != c.1.len() || s.t.block_hash_2().len() as usize != c.2.len() {
+        return Err("accessor lengths".into());
+    }
+    Ok(())
+}
+
+impl Model for TargetModel {
+    type State = TS;
+    type Action = (usize, usize);
+    fn init_states(&self) -> Vec<TS> {
+        vec![TS::new(FuzzyHashCompareTarget::new(), None)]
+    }
+    fn actions(&self, _s: &TS, a: &mut Vec<(usize, usize)>) {
+        for i in 0..self.hs.len() {
+            for f in 0..5 {
+                a.push((i, f));
+            }
+        }
+    }
+    fn next_state(&self, s: &TS, (i, f): (usize, usize)) -> Option<TS> {
+        let mut t = s.t.clone();
+        match init(&mut t, &self.hs[i], f) {
+            Ok(true) => {
+                TRANSITIONS.fetch_add(1, AO::Relaxed);
+                Some(TS::new(t, Some(i)))
+            }
+            Ok(false) => None,
+            Err(_) => Some(TS::new(FuzzyHashCompareTarget::new(), Some(usize::MAX - 1))),
+        }
+    }
+    fn properties(&self) -> Vec<Property<Self>> {
+        vec![Property::always("reinitialised-target-equals-fresh-target", |m, s: &TS| {
+            s.last != Some(usize::MAX - 1) && judge_target(m, s).is_ok()
+        })]
+    }
+}
+
+fn run_target_path(hs: &[Content], path: &[(usize, usize)]) -> Result<(), String> {
+    let m = TargetModel::new(hs.to_vec());
+    let mut t = FuzzyHashCompareTarget::new();
+    for (k, &(i, f)) in path.iter().enumerate() {
+        if init(&mut t, &hs[i], f).map_err(|p| format!("init_from panicked: {}", p))? {
+            judge_target(&m, &TS::new(t.clone(), Some(i))).map_err(|e| format!("after step {} (init_from #{} form {}): {}", k + 1, i, f, e))?;
+        }
+    }
+    Ok(())
+}
+
+// ------------------------------------------------------------------ position array
+
+#[derive(Clone, Debug, PartialEq, Eq, Hash)]
+pub enum POp {
+    Init(usize),
+    Clear,
+}
+#[derive(Clone, Debug)]
+pub struct PS {
+    ops: Vec<POp>,
+    key: Arc<String>,
+    last: Option<usize>, // None = cleared / new
+}
+impl PartialEq for PS {
+    fn eq(&self, o: &Self) -> bool {
+        self.key == o.key && self.last == o.last
+    }
+}
+impl Eq for PS {}
+impl Hash for PS {
+    fn hash<H: Hasher>(&self, h: &mut H) {
+        self.key.hash(h);
+        self.last.hash(h);
+    }
+}
+pub struct PaModel {
+    strs: Arc<Vec<Vec<u8>>>,
+    max_depth: usize,
+}
+fn build(strs: &[Vec<u8>], ops: &[POp]) -> Result<BlockHashPositionArray, String> {
+    let mut pa = BlockHashPositionArray::new();
+    for op in ops {
+        match op {
+            POp::Init(i) => guarded(|| pa.init_from(&strs[*i]))?,
+            POp::Clear => guarded(|| pa.clear())?,
+        }
+    }
+    Ok(pa)
+}
+fn judge_pa(strs: &[Vec<u8>], s: &PS) -> Result<(), String> {
+    let pa = build(strs, &s.ops)?;
+    let cur: Vec<u8> = match s.last {
+        Some(i) => strs[i].clone(),
+        None => vec![],
+    };
+    let mut fresh = BlockHashPositionArray::new();
+    fresh.init_from(&cur);
+    if pa != fresh {
+        return Err(format!("position array after {:?} differs from a fresh one built from {}", s.ops, hex(&cur)));
+    }
+    if !guarded(|| pa.is_valid())? {
+        return Err("position array is invalid".into());
+    }
+    if pa.len() as usize != cur.len() || pa.is_empty() != cur.is_empty() {
+        return Err("len() / is_empty() disagree with the string".into());
+    }
+    if guarded(|| pa.is_valid_and_normalized())? != refmodel::is_normalized(&cur) {
+        return Err("is_valid_and_normalized() disagrees with the string".into());
+    }
+    for o in strs.iter() {
+        if guarded(|| pa.is_equiv(o))? != (*o == cur) {
+            return Err(format!("is_equiv({}) wrong for an array built from {}", hex(o), hex(&cur)));
+        }
+        if guarded(|| pa.has_common_substring(o))? != refmodel::has_common_7gram(&cur, o) || guarded(|| pa.edit_distance(o))? != refmodel::lcs_distance(&cur, o) {
+            return Err(format!("has_common_substring / edit_distance({}) wrong for an array built from {}", hex(o), hex(&cur)));
+        }
+    }
+    Ok(())
+}
+impl Model for PaModel {
+    type State = PS;
+    type Action = POp;
+    fn init_states(&self) -> Vec<PS> {
+        vec![PS { ops: vec![], key: Arc::new(format!("{:?}", BlockHashPositionArray::new())), last: None }]
+    }
+    fn actions(&self, s: &PS, a: &mut Vec<POp>) {
+        if s.ops.len() < self.max_depth {
+            for i in 0..self.strs.len() {
+                a.push(POp::Init(i));
+            }
+            a.push(POp::Clear);
+        }
+    }
+    fn next_state(&self, s: &PS, op: POp) -> Option<PS> {
+        TRANSITIONS.fetch_add(1, AO::Relaxed);
+        let mut ops = s.ops.clone();
+        ops.push(op.clone());
+        let key = match build(&self.strs, &ops) {
+            Ok(pa) => format!("{:?}", pa),
+            Err(e) => format!("PANIC {}", e),
+        };
+        let last = match op {
+            POp::Init(i) => Some(i),
+            POp::Clear => None,
+        };
+        Some(PS { ops, key: Arc::new(key), last })
+    }
+    fn properties(&self) -> Vec<Property<Self>> {
+        vec![Property::always("position-array-represents-exactly-its-string", |m, s: &PS| judge_pa(&m.strs, s).is_ok())]
+    }
+}
+
+fn pa_strings(thorough: bool) -> Vec<Vec<u8>> {
+    let mut v: Vec<Vec<u8>> = vec![
+        vec![],
+        vec![0],
+        vec![63],
+        ramp(7, 0),
+        ramp(8, 0),
+        ramp(64, 0),
+        ramp(63, 1),
+        vec![0; 64],
+        vec![0, 0, 0, 0],
+        vec![0, 0, 0],
+        vec![5, 5, 5, 6, 6, 6, 6],
+        ramp(32, 9),
+    ];
+    if thorough {
+        v.extend([vec![63; 64], ramp(33, 3), vec![1, 0, 1, 0, 1, 0, 1, 0], (0..64).map(|k| (k % 2) as u8 * 63).collect()]);
+    }
+    v
+}
+
+// ------------------------------------------------------------------ driver
+
+pub fn replay(c: &Value) -> Result<(), String> {
+    match c["kind"].as_str() {
+        Some("target") => {
+            let hs: Vec<Content> = c["corpus"].as_array().ok_or("corpus")?.iter().filter_map(crate::c02::cparse).collect();
+            let path: Vec<(usize, usize)> = c["path"].as_array().ok_or("path")?.iter().map(|p| (p[0].as_u64().unwrap_or(0) as usize, p[1].as_u64().unwrap_or(0) as usize)).collect();
+            run_target_path(&hs, &path)
+        }
+        Some("pa") => {
+            let strs: Vec<Vec<u8>> = c["strings"].as_array().ok_or("strings")?.iter().filter_map(|s| s.as_str().map(unhex)).collect();
+            let mut ops = vec![];
+            let mut last = None;
+            for o in c["ops"].as_array().ok_or("ops")? {
+                match o.as_i64() {
+                    Some(-1) => {
+                        ops.push(POp::Clear);
+                        last = None;
+                    }
+                    Some(i) => {
+                        ops.push(POp::Init(i as usize));
+                        last = Some(i as usize);
+                    }
+                    None => return Err("ops".into()),
+                }
+                let key = Arc::new(String::new());
+                judge_pa(&strs, &PS { ops: ops.clone(), key, last })?;
+            }
+            Ok(())
+        }
+        _ => Err("bad case".into()),
+    }
+}
+
+fn target_case(hs: &[Content], path: &[(usize, usize)]) -> Value {
+    // keep only the hashes the path mentions (re-indexed) plus two others
+    json!({"kind": "target", "corpus": hs.iter().map(crate::c02::cj).collect::<Vec<_>>(), "path": path.iter().map(|p| json!([p.0, p.1])).collect::<Vec<_>>()})
+}
+fn pa_case(strs: &[Vec<u8>], ops: &[POp]) -> Value {
+    json!({"kind": "pa", "strings": strs.iter().map(|s| hex(s)).collect::<Vec<_>>(),
+           "ops": ops.iter().map(|o| match o { POp::Init(i) => *i as i64, POp::Clear => -1 }).collect::<Vec<_>>()})
+}
+
+pub fn run(ctx: &Ctx) -> Report {
+    let mut rep = Report::new("model_checking");
+    let thorough = ctx.tier == Tier::Thorough;
+    let hs = corpus(thorough);
+    let nh = hs.len();
+    TRANSITIONS.store(0, AO::Relaxed);
+    let sr = explore::run_stateright(TargetModel::new(hs.clone()), 16);
+    let t_trans = TRANSITIONS.load(AO::Relaxed);
+    for (name, path) in &sr.discoveries {
+        rep.violation(Violation {
+            signature: format!("target {} path={:?}", name, path),
+            what: run_target_path(&hs, path).err().unwrap_or_else(|| name.clone()),
+            case: target_case(&hs, path),
+        });
+    }
+    let b = explore::bfs(&TargetModel::new(hs.clone()), 1 << 20, 200);
+    let mut traces = 0u64;
+    if let Some((name, path)) = &b.violation {
+        if sr.discoveries.is_empty() {
+            rep.violation(Violation {
+                signature: format!("target {} path={:?}", name, path),
+                what: run_target_path(&hs, path).err().unwrap_or_else(|| name.clone()),
+                case: target_case(&hs, path),
+            });
+        }
+    } else {
+        if sr.discoveries.is_empty() && sr.unique != b.states {
+            eprintln!("mc: explorers disagree on the C17 target space: {} vs {}", sr.unique, b.states);
+            std::process::exit(5);
+        }
+        for p in &b.sample_paths {
+            traces += 1;
+            // extend each recorded path by one more re-initialisation to make it a reuse history
+            let mut p2 = p.clone();
+            p2.push(((p.len() * 7 + 3) % nh, 0));
+            if let Err(e) = run_target_path(&hs, &p2) {
+                rep.violation(Violation { signature: format!("target trace {:?}", p2), what: e, case: target_case(&hs, &p2) });
+            }
+        }
+    }
+    rep.set(
+        "target_space",
+        json!({"corpus": nh, "operand_forms": 5, "states": b.states, "transitions": b.transitions, "expected_states_if_property_holds": nh + 1,
+               "closed": !b.capped, "stateright_unique": sr.unique, "stateright_generated": sr.generated, "stateright_next_state_calls": t_trans, "bfs_depth": b.depth}),
+    );
+    // position array: depth-bounded over clear / init_from (the array is not Clone; histories are replayed)
+    let strs = pa_strings(thorough);
+    let depth = ctx.tier.pick(3usize, 4);
+    TRANSITIONS.store(0, AO::Relaxed);
+    let srp = explore::run_stateright(PaModel { strs: Arc::new(strs.clone()), max_depth: depth }, 16);
+    let p_trans = TRANSITIONS.load(AO::Relaxed);
+    for (name, ops) in &srp.discoveries {
+        let mut acc_ops = vec![];
+        let mut last = None;
+        let mut what = name.clone();
+        for o in ops {
+            acc_ops.push(o.clone());
+            last = match o {
+                POp::Init(i) => Some(*i),
+                POp::Clear => None,
+            };
+            if let Err(e) = judge_pa(&strs, &PS { ops: acc_ops.clone(), key: Arc::new(String::new()), last }) {
+                what = e;
+                break;
+            }
+        }
+        let _ = last;
+        rep.violation(Violation { signature: format!("position array {:?}", ops), what, case: pa_case(&strs, ops) });
+    }
+    let bp = explore::bfs(&PaModel { strs: Arc::new(strs.clone()), max_depth: depth }, 1 << 20, 100);
+    if let Some((name, ops)) = &bp.violation {
+        if srp.discoveries.is_empty() {
+            rep.violation(Violation { signature: format!("position array {:?}", ops), what: name.clone(), case: pa_case(&strs, ops) });
+        }
+    } else {
+        for ops in &bp.sample_paths {
+            traces += 1;
+            if let Err(e) = replay(&pa_case(&strs, ops)) {
+                rep.violation(Violation { signature: format!("position array trace {:?}", ops), what: e, case: pa_case(&strs, ops) });
+            }
+        }
+    }
+    rep.set(
+        "position_array_space",
+        json!({"strings": strs.len(), "depth_bound": depth, "states": bp.states, "transitions": bp.transitions,
+               "expected_states_if_property_holds": strs.len() + 1, "stateright_unique": srp.unique, "stateright_next_state_calls": p_trans}),
+    );
+    rep.set("states", b.states + bp.states);
+    rep.set("transitions", b.transitions + bp.transitions);
+    rep.set("traces_validated_against_impl", traces);
+    rep.set("exhaustive", !b.capped);
+    rep.set(
+        "samples",
+        json!([{"kind":"target","path": b.sample_paths.first().map(|p| p.iter().map(|x| json!([rt::format(hs[x.0].0, &hs[x.0].1, &hs[x.0].2), x.1])).collect::<Vec<_>>())},
+               {"kind":"pa","ops": bp.sample_paths.first().map(|p| format!("{:?}", p))}]),
+    );
+    rep.set(
+        "rule",
+        "comparison target: BFS over the real FuzzyHashCompareTarget under init_from(h) for every h of a corpus of normalized hashes with differing lengths (0, 1, 7, 8, 32, 33, 63, 64 symbols), symbols and block sizes, each given as LongFuzzyHash, FuzzyHash, LongDualFuzzyHash, DualFuzzyHash operands and through From; the space closes at |H|+1 states iff nothing is carried over, so initialisation sequences of ANY length are covered; in every state: is_valid, full_eq a fresh target, is_equiv exactly the last hash, compare and is_comparison_candidate against every corpus hash equal the fresh target's, the block hash accessors represent the strings.  position array: all clear / init_from histories to the depth bound over a string corpus (not normalized strings included): equals a fresh array, len, is_valid, is_valid_and_normalized, is_equiv, has_common_substring, edit_distance agree with the string.",
+    );
+    rep
+}
